@@ -101,11 +101,14 @@ def main():
     write("C07", "probe-F10", [variant(file(msg("A", fld("s", 1, "string", oneof="X"), fld("d", 2, "int64", oneof="X", casttype="Duration"),
                                                 fld("t", 3, "int64", oneof="X", casttype="time.Duration"), fld("z", 4, "string"))),
                                        config(["A"], duration_custom_type="Duration"))], INNER)
-    # F4 (known, not repaired): nullable embedded message with a list / map / message child
-    write("C03", "probe-F4", [variant(file(msg("N", fld("S", 1, "string")),
-                                           msg("Emb", fld("L", 1, "string", "repeated"), fld("M", 2, "string", "map"), fld("N", 3, "message", type="N"), fld("S", 4, "string")),
-                                           msg("A", fld("Emb", 1, "message", type="Emb", embed=True), fld("X", 2, "string"))),
-                                      config(["A"]))], INNER)
+    # F4: nullable embedded message with a list / map / message child (nil dereference in both converters)
+    f4 = file(msg("N", fld("S", 1, "string")),
+              msg("Emb", fld("L", 1, "string", "repeated"), fld("M", 2, "string", "map"), fld("N", 3, "message", type="N"),
+                  fld("NV", 4, "message", type="N", nullable=False), fld("NL", 5, "message", "repeated", type="N"),
+                  fld("T", 6, "timestamp"), fld("S", 7, "string")),
+              msg("A", fld("Emb", 1, "message", type="Emb", embed=True), fld("X", 2, "string")))
+    for prop in ["C03", "C04", "C05", "C06", "C08", "C09", "C19", "C20"]:
+        write(prop, "probe-F4", [variant(f4, config(["A"]))], INNER)
 
 if __name__ == "__main__":
     main()
